@@ -147,6 +147,9 @@ fn replay_file(ctx: &Ctx, prop: &props::PropDef, findings: &[Finding], file: &st
             if verbose {
                 println!("replay {}: property held", file.display());
             }
+            if !sig.is_empty() && is_known(findings, ctx.id, sig) {
+                eprintln!("NOTE: the witness {} of the listed known finding [{sig}] no longer fails: the defect was repaired or the witness is stale", file.display());
+            }
             0
         }
         Err(m) => {
